@@ -32,8 +32,20 @@ def main():
     rc = 2
     try:
         mod = importlib.import_module("checks." + prop.lower())
-        if a.replay:
+        if a.replay and hasattr(mod, "replay"):
             mod.replay(ctx, a.replay)
+        elif a.replay:
+            # generic replay: the recorded disagreement names its stimulus in words; the check is run
+            # again with the recorded tier and seed and only that signature is looked for
+            import json
+            rec = json.load(open(a.replay))
+            core.log("[replay] %s: %s" % (rec.get("sig"), rec.get("what")))
+            core.log("[replay] stimulus: %s" % (str(rec.get("stimulus"))[:600],))
+            ctx.tier, ctx.seed = rec.get("tier", ctx.tier), rec.get("seed", ctx.seed)
+            mod.run(ctx)
+            ctx.violations = [v for v in ctx.violations if v["sig"] == rec.get("sig")]
+            if not ctx.violations:
+                core.log("[replay] not reproduced: the signature does not occur on the current tree")
         else:
             mod.run(ctx)
         rc = ctx.finish()
